@@ -72,7 +72,9 @@ def get_system(options: model.Options) -> model.System:
     # step 3: move the system to the desired state
 
     if system.options.projectname is None:
-        name = '/'.join(system.root_names)
+        # root_names is a set: use the order of the root objects, which is the order 
+        # of the paths given on the command line, to get the same name for each run.
+        name = '/'.join(o.name for o in system.rootobjects)
         system.msg('warning', f"Guessing '{name}' for project name.", thresh=0)
         system.projectname = name
     else:
